@@ -11,6 +11,7 @@ ALL = {
     "depth-placeholder-permanent": ("F9", {"C02", "C08"}),
     "alias-schema-not-parsed": ("F30", {"C08", "C02"}), "alias-target-substituted": ("F30", {"C02"}),
     "inline-prop-named-like-schema": ("F37", {"C02"}), "synthetic-name-shadows-declared-schema": ("F37", {"C02"}), "synthetic-looking-name-loses-fields": ("F37", {"C02"}),
+    "nested-pointer-ref-resolved-by-last-segment": ("F66", {"C02"}),
     "sanitize-twice-name-not-parsed": ("F50", {"C08"}), "depth-limit-bypassed-recursion-error": ("F51", {"C08"}), "depth-limit-bypassed-recursion-error-unsanitised-name": ("F61", {"C08"}),
     "cycle-placeholder-replaces-schema": ("F52", {"C02"}), "ref-typed-as-unregistered-copy": ("F52", {"C02"}), "unresolved-stub-replaces-schema": ("F52", {"C02"}),
     "field-kind-differs": ("F52", {"C02"}), "fields-differ-other": ("F52", {"C02"}), "required-flag-differs": ("F52", {"C02"}),
